@@ -36,6 +36,12 @@ Step ==
   /\ LET e == Ev  got == e.post  typed == WellTyped(got, NMods(st)) IN
      /\ Check(typed, "post-shape", NMods(st), "tables")
      /\ IF ~typed THEN ok' = FALSE /\ UNCHANGED st
+        ELSE IF e.op \in {"connect", "chain"} /\ ~Consistent(st) THEN
+          \* the previous logged state was already rejected as inconsistent; no expectation is
+          \* defined from it, the trace stays rejected and the new state is still examined
+          LET g3 == Consistent(got) IN
+          /\ Check(g3, "Consistent:" \o WhyInconsistent(got), "consistent", got)
+          /\ ok' = FALSE /\ st' = got
         ELSE IF e.op \in {"connect", "chain"} THEN
           LET r == Expected(e)
               g1 == e.outcome = r.outcome
